@@ -12,10 +12,10 @@ def iso(a):
     return [str(np.datetime64(t, "s")) for t in np.asarray(a)]
 
 
-def main():
-    kind, directory = sys.argv[1], sys.argv[2]
-    opts = json.loads(sys.argv[3]) if len(sys.argv) > 3 else {}
+def read_files(kind, directory, opts):
+    """reads one file set with the reader `kind` and returns plain lists (also used in-process by checks that do not vary the host TZ)"""
     out = {}
+    restore = None
     try:
         if opts.get("dask_chunk_size"):
             import dask
@@ -29,9 +29,7 @@ def main():
                 b = read_silixa_files(directory=opts["other"], silent=True, load_in_memory=opts.get("load_in_memory", True))
                 diff = (a["st"].data - b["st"].data)
                 cat = xr.concat([a[["st", "ast", "rst", "rast"]], b[["st", "ast", "rst", "rast"]]], dim="time")
-                out = {"diff": np.asarray(diff).tolist(), "cat": {k: np.asarray(cat[k].values).tolist() for k in cat.data_vars}, "b_tmp": np.asarray(b["tmp"].values).tolist()}
-            print("JSON:" + json.dumps(out))
-            return
+                return {"diff": np.asarray(diff).tolist(), "cat": {k: np.asarray(cat[k].values).tolist() for k in cat.data_vars}, "b_tmp": np.asarray(b["tmp"].values).tolist()}
         if kind == "apsensing":
             from dtscalibration import read_apsensing_files
             ds = read_apsensing_files(directory=directory, silent=True, load_in_memory=opts.get("load_in_memory", True), timezone_netcdf=opts.get("timezone_netcdf", "UTC"),
@@ -46,6 +44,7 @@ def main():
             import dtscalibration.io.sensornet as sn
             if opts.get("listing") == "reversed":
                 orig = sn.glob
+                restore = (sn, orig)
                 sn.glob = lambda *a, **k: sorted(orig(*a, **k))[::-1]
             ds = sn.read_sensornet_files(directory=directory, silent=True, timezone_netcdf=opts.get("timezone_netcdf", "UTC"),
                                          timezone_input_files=opts.get("timezone_input_files", "UTC"),
@@ -67,7 +66,16 @@ def main():
                 out[k] = (np.asarray(ds[k].values) / np.timedelta64(1, "s")).tolist()
     except Exception as ex:
         out = {"error": f"{type(ex).__name__}: {str(ex)[:200]}"}
-    print("JSON:" + json.dumps(out))
+    finally:
+        if restore:
+            restore[0].glob = restore[1]
+    return out
+
+
+def main():
+    kind, directory = sys.argv[1], sys.argv[2]
+    opts = json.loads(sys.argv[3]) if len(sys.argv) > 3 else {}
+    print("JSON:" + json.dumps(read_files(kind, directory, opts)))
 
 
 if __name__ == "__main__":
